@@ -214,7 +214,7 @@ func generate(rng *rand.Rand, k Knobs, profile string) *Prog {
 	pickX := func(t *Task) string {
 		if t.Run == WhenChanged && t.XVia == "env" {
 			// pairs that only differ by which name holds which value, or by one value under two names
-			return []string{"one,two", "two,one", "one,one", "two,two", "one", "two"}[rng.Intn(6)]
+			return []string{"one,two", "two,one", "one,one", "two,two", "one,", ",one"}[rng.Intn(6)]
 		}
 		if t.Run == WhenChanged {
 			return []string{"one", "two"}[rng.Intn(2)]
